@@ -49,7 +49,7 @@ class Machine:
                     self.inputs[name] = fd
                 elif src.startswith(a + ".output("):
                     self.outputs[name] = fd
-        for node in cd.node.body:
+        for node in self._unrolled_body(cd.node.body):
             if isinstance(node, ast.Assign) and len(node.targets) == 1 and isinstance(node.targets[0], ast.Name) \
                     and isinstance(node.value, ast.Name) and node.value.id in self.states:
                 self.aliases[node.targets[0].id] = node.value.id
@@ -76,6 +76,40 @@ class Machine:
                         outs = [e.id for e in pos[1].elts]
                 enter = self.aliases.get(enter, enter)
                 self.table[(st, inp)] = (enter, outs, collector)
+
+    def _unrolled_body(self, body):
+        """the statements of the class body with every `for <names> in (<literal tuple/list of names or tuples of names>):`
+        loop unrolled (rows are sometimes declared in a loop over states: `for s in (A, B): s.upon(i, enter=s, outputs=[])`);
+        a loop of any other shape is left as it is (its rows are not seen, which shows up as nodom: obligations)"""
+        out = []
+        for node in body:
+            if isinstance(node, ast.For) and isinstance(node.iter, (ast.Tuple, ast.List)) and not node.orelse:
+                tgts = [node.target] if isinstance(node.target, ast.Name) else \
+                    list(node.target.elts) if isinstance(node.target, (ast.Tuple, ast.List)) else None
+                ok = tgts is not None and all(isinstance(t, ast.Name) for t in tgts)
+                rows = []
+                for el in node.iter.elts if ok else []:
+                    vals = [el] if len(tgts) == 1 else (list(el.elts) if isinstance(el, (ast.Tuple, ast.List)) else None)
+                    if vals is None or len(vals) != len(tgts) or not all(isinstance(v, ast.Name) for v in vals):
+                        ok = False
+                        break
+                    rows.append({t.id: v.id for t, v in zip(tgts, vals)})
+                if ok:
+                    class Sub(ast.NodeTransformer):
+                        def __init__(self, m):
+                            self.m = m
+
+                        def visit_Name(self, n):
+                            if n.id in self.m:
+                                return ast.copy_location(ast.Name(self.m[n.id], n.ctx), n)
+                            return n
+                    import copy
+                    for m in rows:
+                        for st in node.body:
+                            out.extend(self._unrolled_body([Sub(m).visit(copy.deepcopy(st))]))
+                    continue
+            out.append(node)
+        return out
 
     @property
     def ok(self):
